@@ -29,6 +29,8 @@ def main():
     work = []
     for p in sorted(glob.glob(os.path.join(VERIF, "benign", "*.patch"))):
         work.append((p, "benign", []))
+    for p in sorted(glob.glob(os.path.join(VERIF, "benign-limits", "*.patch"))):
+        work.append((p, "limit", []))           # documented limitations: reported, not counted
     for p in sorted(glob.glob(os.path.join(VERIF, "mutants", "*.patch"))):
         work.append((p, "mutant", REVFIX.get(os.path.basename(p)[:-6], [])))
     for d in sorted(glob.glob(os.path.join(VERIF, "seeded", "*"))):
@@ -54,6 +56,9 @@ def main():
             caught = [p for p, (rc, _, _) in out.items() if rc == 1]
             errs = [p for p, (rc, _, _) in out.items() if rc not in (0, 1)]
             matrix[name] = {"kind": kind, "expected": expect[:1], "caught": caught}
+            if kind == "limit":
+                print(f"limit  {name}: {caught or 'silent (no longer a limitation)'}", flush=True)
+                continue
             if kind == "benign":
                 ok = not caught and not errs
                 print(f"{'ok    ' if ok else 'ALARM '} {name}: {caught or 'silent'}" + (f" errors {errs}" if errs else ""), flush=True)
